@@ -69,7 +69,7 @@ PROPS = {
         level_text='Theorem C06_output_independent_of_observers: any two observer controllers (H and H u O drive completely different scan/lex switching) emit the same bytes for the same input under any chunkings. '
                    'Partial: equality of the events H itself receives (scanner simulates lexer) is decided by the correspondence run on (H, H u O) pairs and the pair oracle.',
         level_note='Trusted as C01.'),
-    'C09': dict(coq=['props/C09.vo'], families=[('grp-l1', 500, 10000), ('grp-l2mixed', 600, 15000), ('l2mixed', 800, 20000)], projections=['pending'], oracle=oracle_c09, classify=classify_c09,
+    'C09': dict(coq=['props/C09.vo'], families=[('grp-l1', 500, 10000), ('grp-l2mixed', 600, 15000), ('nohandlers', 900, 20000)], projections=['pending'], oracle=oracle_c09, classify=classify_c09,
         technique=COROLL,
         level_text='Theorem C09_pending_is_the_buffered_tail: for every observer controller and chunking, after successful writes sink ++ buffered tail = bytes written, so exactly the unconsumed tail is held back. '
                    'Partial: that the tail length is a function of the prefix alone and the per-state bounds (<= "<"+name or a look-ahead with no handlers) are decided by the correspondence run (pending bytes after every write) '
